@@ -259,16 +259,56 @@ def rule_axis_py(ctx, py):
     want = {(k, s, m) for k in range(3) for s in (-1, 1) for m in ("inner", "wrap")}
     ctx.check(disp == want, "C15.DISP", f, f._qual, "get_neighbors displacement set",
               "12 forms: +-1 on each axis, inner and periodic wrap", "missing forms: %s" % sorted(want - disp))
-    # are_neighbors: dk <-> coord[k], extent k, flag k
-    g = py.fn("rdgridspace.RDGridSpace.are_neighbors")
-    for st in ast.walk(g):
-        if isinstance(st, ast.Assign) and isinstance(st.targets[0], ast.Name) and st.targets[0].id in ("dx", "dy", "dz"):
-            one_axis(ctx, R, st, g._qual, "are_neighbors: " + pyfe.src(st)[:70])
-        if isinstance(st, ast.If) and "periodical" in pyfe.src(st.test):
-            one_axis(ctx, R, st, g._qual, "are_neighbors: " + pyfe.src(st)[:90].replace("\n", " "))
-    rr = [r for r in ast.walk(g) if isinstance(r, ast.Return)]
-    ctx.check(any(norm_ws(pyfe.src(r.value)) == "dx+dy+dz==1" for r in rr), "C15.DISP", g, g._qual,
-              "are_neighbors: L1 distance == 1", "", "the neighbour test is not dx + dy + dz == 1")
+    # are_neighbors: the value returned, with every local written out (loops over the axes unrolled), is
+    #   sum over the three axes k of  [ min(Dk, |extent_k - Dk|) if flag_k periodic else Dk ]  == 1,   Dk = |c1[k] - c2[k]|
+    from .. import pysym, pynorm
+    g = pynorm.unrolled(py.fn("rdgridspace.RDGridSpace.are_neighbors"))
+    try:
+        rets = pysym.exec_returns(g)
+    except pysym.NotModelled as e:
+        ctx.error(R, "are_neighbors: %s" % e)
+    ctx.need(len(rets) == 1 and isinstance(rets[0][1], ast.Compare) and len(rets[0][1].ops) == 1, R,
+             "are_neighbors: a single `return <sum> == 1` not found")
+    cmpn = rets[0][1]
+    sides = [cmpn.left, cmpn.comparators[0]]
+    one = [x for x in sides if isinstance(x, ast.Constant) and x.value == 1]
+    tot = [x for x in sides if not (isinstance(x, ast.Constant) and x.value == 1)]
+    ctx.check(isinstance(cmpn.ops[0], ast.Eq) and len(one) == 1 and len(tot) == 1, "C15.DISP", g, g._qual,
+              "are_neighbors: L1 distance == 1", "", "the neighbour test is not <distance> == 1")
+    terms = []
+
+    def flat(e):
+        if isinstance(e, ast.BinOp) and isinstance(e.op, ast.Add):
+            flat(e.left)
+            flat(e.right)
+        elif not (isinstance(e, ast.Constant) and e.value == 0):
+            terms.append(e)
+    if tot:
+        flat(tot[0])
+    seen_axes = []
+    for tm in terms:
+        k = one_axis(ctx, R, tm, g._qual, "are_neighbors: " + pyfe.src(tm)[:80])
+        if k is None:
+            continue
+        seen_axes.append(k)
+        cs = sorted({t for a_, r_, t in py_axis_tokens(tm) if r_ == "coord"})
+        fl = sorted({t for a_, r_, t in py_axis_tokens(tm) if r_ == "flag"})
+        ex = sorted({t for a_, r_, t in py_axis_tokens(tm) if r_ == "extent"})
+        okk = len(cs) == 2 and len(fl) == 1 and len(ex) == 1
+        got = norm_ws(pyfe.src(tm))
+        forms = set()
+        if okk:
+            for c1, c2 in (cs, cs[::-1]):
+                D = "abs(%s-%s)" % (c1, c2)
+                for wrap in ("abs(%s-%s)" % (ex[0], D), "abs(%s-%s)" % (D, ex[0]), "%s-%s" % (ex[0], D)):
+                    for mn in ("min(%s,%s)" % (D, wrap), "min(%s,%s)" % (wrap, D)):
+                        for q in ("'", '"'):
+                            forms.add(norm_ws("%s if %s==%speriodical%s else %s" % (mn, fl[0], q, q, D)))
+        ctx.check(okk and got in forms, "C15.DISP", tm, g._qual, "are_neighbors axis %s term" % "xyz"[k],
+                  "|dc| wrapped by the axis extent when the axis is periodic", "the per-axis distance is `%s`, not "
+                  "min(D, |extent - D|) under the periodic flag and D otherwise" % pyfe.src(tm)[:160])
+    ctx.check(sorted(seen_axes) == [0, 1, 2], "C15.DISP", g, g._qual, "are_neighbors: one term per axis", "x, y, z",
+              "the distance sums the axes %s" % sorted(seen_axes))
     # kinetics enumeration
     h = py.fn("kinetics._compute_dspeciesdt_grid")
     lists = [n for n in ast.walk(h) if isinstance(n, ast.For) and isinstance(n.iter, ast.List)]
@@ -395,20 +435,37 @@ def rule_cx(ctx, tu):
                     ctx.need(nm in AX, R, "GetNeighborIndex: case %s moves unknown variable %s" % (lab, nm))
                     moves[lab] = (AX[nm], 1 if s.op == "+=" else -1)
     if not moves:
-        tables = {}
+        tables = {}      # one table per axis: name -> 6 offsets;  or one [6][3] table: name -> 6 rows of 3
         for n in walk(f.body):
             if n.get("kind") == "VarDecl" and "[6]" in n.get("type", {}).get("qualType", "") and kids(n):
-                lits = [cxa.const_int(x) for x in kids(strip(kids(n)[-1]))]
+                rows = kids(strip(kids(n)[-1]))
+                lits = [cxa.const_int(x) for x in rows]
                 if len(lits) == 6 and None not in lits:
                     tables[cxfe.uname(n)] = lits
+                elif len(rows) == 6 and all(strip(r).get("kind") == "InitListExpr" and len(kids(strip(r))) == 3
+                                            for r in rows):
+                    m2 = [[cxa.const_int(x) for x in kids(strip(r))] for r in rows]
+                    if all(None not in r for r in m2):
+                        tables[cxfe.uname(n)] = m2
         vec = {}
+        dirp = f.param_names()[3]
         for s in cxa.all_stores(f.body):
             sub = cxfe.subscript(s.rhs) if s.rhs is not None else None
-            if s.base and s.op == "+=" and sub is not None and cxfe.uname(strip(sub[0], casts=True)) in tables and \
-                    cxfe.uname(strip(sub[1], casts=True)) == f.param_names()[3]:
-                nm = s.base[1].split("'")[0]
+            if not (s.base and s.op == "+=" and sub is not None):
+                continue
+            nm = s.base[1].split("'")[0]
+            if cxfe.uname(strip(sub[0], casts=True)) in tables and cxfe.uname(strip(sub[1], casts=True)) == dirp:
                 ctx.need(nm in AX, R, "GetNeighborIndex: unknown moved variable %s" % nm)
                 vec[AX[nm]] = tables[cxfe.uname(strip(sub[0], casts=True))]
+                continue
+            sub2 = cxfe.subscript(sub[0])       # T[direction][k]
+            col = cxa.const_int(sub[1])
+            if sub2 is not None and col is not None and cxfe.uname(strip(sub2[0], casts=True)) in tables and \
+                    cxfe.uname(strip(sub2[1], casts=True)) == dirp and 0 <= col < 3:
+                ctx.need(nm in AX, R, "GetNeighborIndex: unknown moved variable %s" % nm)
+                t2 = tables[cxfe.uname(strip(sub2[0], casts=True))]
+                if isinstance(t2[0], list):
+                    vec[AX[nm]] = [row[col] for row in t2]
         if len(vec) == 3:
             for d_ in range(6):
                 step = [(ax, vec[ax][d_]) for ax in range(3) if vec[ax][d_] != 0]
